@@ -378,7 +378,9 @@ func runSeqHistory(eng *kb.Engine, engName string, b *seqBehaviour, rnd *rand.Ra
 		fixedPrefix = fmt.Sprintf("/z%06d", n)
 		beyond = n%2 == 0
 	}
-	env := kb.NewEnv(kb.Options{Engine: eng, KeyNames: keyNames, Gated: false, Base: b.Base, Record: true, Etcd: true, NoTTL: opt.noTTL, Partitions: opt.partitions, Prefix: fixedPrefix})
+	// (a backend's background goroutines never end, so no backend of an earlier history is ever collected: keep what each one
+	//  allocates small -- an event cache of 256 entries instead of the default 200000; a history has a few dozen events)
+	env := kb.NewEnv(kb.Options{Engine: eng, KeyNames: keyNames, Gated: false, Base: b.Base, Record: true, Etcd: true, NoTTL: opt.noTTL, Partitions: opt.partitions, Prefix: fixedPrefix, CacheSize: 256})
 	defer env.Retire()
 	env.Sched.Register("c1")
 	store0, _ := env.Dump()
